@@ -548,6 +548,62 @@ def unit_wbl(ctx):
     u.done()
 
 
+def unit_wbl_long(ctx):
+    """wide blocks long enough for the round counter of belt-wblock (2n rounds for n blocks) to pass 255 and 511:
+    2032 .. 8192 octets (SDE sectors of 2048 / 4096 octets, keys wrapped with long headers are the real uses)"""
+    u = U(ctx)
+    lib, rng = u.lib, u.rng
+    for count in ctx.params["counts"]:
+        for rep in range(ctx.params.get("reps", 1)):
+            klen = KLENS[(count + rep) % 3]
+            key = u.key(klen)
+            x = pat(rng, count)
+            iv = pat(rng, 16)
+            det = {"key": key, "count": count, "buf_head": x[:32]}
+            wc = "long:%s" % ("ragged" if count % 16 else "rounds>%d" % (255 if count < 4096 else 511))
+            if ctx.case(dict(det, op="beltWBLStepE/D"), "wbl:" + wc):
+                exp = M.wblock_encr(x, key)
+                st = lib.alloc(lib.beltWBL_keep())
+                lib.beltWBLStart(st, lib.mk(key), klen)
+                p = lib.mk(x)
+                lib.beltWBLStepE(p, count, st)
+                got = lib.rd(p, count)
+                lib.beltWBLStepD(p, count, st)
+                back = lib.rd(p, count)
+                lib.release()
+                ctx.digest(got, back)
+                u.eq("beltWBLStepE", wc, got, exp, det)
+                u.inv("beltWBLStepD", wc, back, x, det)
+            if count % 16 == 0 and ctx.case(dict(det, op="beltSDEEncr/Decr", iv=iv), "sde:" + wc):
+                exp = M.sde_encr(x, key, iv)
+                d, d2 = lib.alloc(count), lib.alloc(count)
+                r = lib.beltSDEEncr(d, lib.mk(x), count, lib.mk(key), klen, lib.mk(iv))
+                got = lib.rd(d, count)
+                r2 = lib.beltSDEDecr(d2, lib.mk(exp), count, lib.mk(key), klen, lib.mk(iv))
+                back = lib.rd(d2, count)
+                lib.release()
+                ctx.digest(got, back, r, r2)
+                if u.rc("beltSDEEncr", wc, r, 0, det):
+                    u.eq("beltSDEEncr", wc, got, exp, det)
+                if u.rc("beltSDEDecr", wc, r2, 0, det):
+                    u.inv("beltSDEDecr", wc, back, x, det)
+            if ctx.case(dict(det, op="beltKWPWrap/Unwrap"), "kwp:" + wc):
+                src, hdr = x[:count - 16], x[count - 16:]
+                token = M.kwp_wrap(src, hdr, key)
+                dest, d2 = lib.alloc(count), lib.alloc(count - 16)
+                r = lib.beltKWPWrap(dest, lib.mk(src), count - 16, lib.mk(hdr), lib.mk(key), klen)
+                got = lib.rd(dest, count)
+                r2 = lib.beltKWPUnwrap(d2, lib.mk(token), count, lib.mk(hdr), lib.mk(key), klen)
+                back = lib.rd(d2, count - 16)
+                lib.release()
+                ctx.digest(got, back, r, r2)
+                if u.rc("beltKWPWrap", wc, r, 0, det):
+                    u.eq("beltKWPWrap", wc, got, token, det)
+                if u.rc("beltKWPUnwrap", wc + ":accept", r2, 0, det):
+                    u.inv("beltKWPUnwrap", wc, back, src, det)
+    u.done()
+
+
 # ---------------------------------------------------------------------------
 # unit: DWP, CHE — values, inverse, Start/Step, tamper rejection
 # ---------------------------------------------------------------------------
@@ -1087,6 +1143,8 @@ def jobs(tier, scale=1.0):
     nw = 16
     for k in range(nw):
         add("unit_wbl", chunk=k, nch=nw, reps=sc(2 if q else 16), tamper_every=2 if q else 1)
+    for cnts in ([[2032, 2048], [2064, 4096]] if q else [[2032, 2048], [2064, 2051], [4096], [4080, 4112], [8192], [6000, 8191]]):
+        add("unit_wbl_long", counts=cnts, reps=1 if q else 3)
     nm = 8 if q else 16
     for k in range(nm):
         add("unit_modes", chunk=k, nch=nm, reps=sc(6 if q else 64))
